@@ -78,3 +78,4 @@ fn letter_encode_decode_roundtrip() {
     let d = Letter::decode(e, alphabet_size, &markers);
     assert!(d == l);
 }
+
